@@ -29,6 +29,24 @@ type DocCfg struct {
 	Scalars uint32   // allowed scalar kinds (KNil|KBool|KFloat|KString|KNumber|opaque bits)
 	RootKinds uint32 // optional: restrict the root's kinds (0 = no restriction)
 	MinLen  int
+	// Optional per-level narrowing, indexed by the node's remaining depth
+	// (index 1 = deepest containers). Missing entries fall back to Keys/MaxLen.
+	KeysAt   map[int][]string
+	MaxLenAt map[int]int
+}
+
+func (c *DocCfg) keysAt(depth int) []string {
+	if k, ok := c.KeysAt[depth]; ok {
+		return k
+	}
+	return c.Keys
+}
+
+func (c *DocCfg) maxLenAt(depth int) int {
+	if k, ok := c.MaxLenAt[depth]; ok {
+		return k
+	}
+	return c.MaxLen
 }
 
 // DocNode is one lazily resolved node of a symbolic document.
@@ -185,11 +203,11 @@ func (s *State) resolveNode(n *DocNode) Iface {
 		}
 		switch b {
 		case KMap:
-			for sub := 0; sub < 1<<uint(len(n.Cfg.Keys)); sub++ {
+			for sub := 0; sub < 1<<uint(len(n.Cfg.keysAt(n.Depth))); sub++ {
 				alts = append(alts, docAlt{b, sub})
 			}
 		case KArray:
-			for l := n.Cfg.MinLen; l <= n.Cfg.MaxLen; l++ {
+			for l := n.Cfg.MinLen; l <= n.Cfg.maxLenAt(n.Depth); l++ {
 				alts = append(alts, docAlt{b, l})
 			}
 		default:
@@ -231,7 +249,7 @@ func (s *State) materialise(n *DocNode, a docAlt) Iface {
 	case KMap:
 		md := &MapData{M: map[string]*MapEntry{}}
 		var init []Value
-		for i, k := range n.Cfg.Keys {
+		for i, k := range n.Cfg.keysAt(n.Depth) {
 			if a.sub&(1<<uint(i)) == 0 {
 				continue
 			}
